@@ -345,6 +345,9 @@ pub struct Cfg {
     /// wait for the run with Checker::join_and_report instead of joining the handles
     #[serde(default)]
     pub join_and_report: bool,
+    /// also feed the crate's own PathRecorder and StateRecorder visitors (what they recorded goes into the run record)
+    #[serde(default)]
+    pub recorders: bool,
 }
 
 pub fn finish_of(f: &Finish) -> HasDiscoveries {
@@ -357,6 +360,20 @@ pub fn finish_of(f: &Finish) -> HasDiscoveries {
         "AllOf" => HasDiscoveries::AllOf(set),
         "AnyOf" => HasDiscoveries::AnyOf(set),
         v => panic!("finish variant {v}"),
+    }
+}
+
+/// The harness's log visitor followed by the crate's own two recorder visitors (fed with the same path).
+struct WithRecorders {
+    log: LogVisitor,
+    paths: stateright::PathRecorder<TableModel>,
+    states: stateright::StateRecorder<TableModel>,
+}
+impl CheckerVisitor<TableModel> for WithRecorders {
+    fn visit(&self, m: &TableModel, path: Path<u32, u16>) {
+        self.paths.visit(m, path.clone());
+        self.states.visit(m, path.clone());
+        self.log.visit(m, path);
     }
 }
 
@@ -691,8 +708,16 @@ pub fn run_one(g: &Graph, cfg: &Cfg) -> Value {
         .checker()
         .threads(cfg.threads)
         .finish_when(finish_of(&cfg.finish));
+    let mut rec_access: Option<(Box<dyn Fn() -> std::collections::HashSet<Path<u32, u16>>>, Box<dyn Fn() -> Vec<u32>>)> = None;
     if !cfg.no_visitor {
-        b = b.visitor(vis);
+        if cfg.recorders {
+            let (pr, pa) = stateright::PathRecorder::<TableModel>::new_with_accessor();
+            let (sr, sa) = stateright::StateRecorder::<TableModel>::new_with_accessor();
+            rec_access = Some((Box::new(pa), Box::new(sa)));
+            b = b.visitor(WithRecorders { log: vis, paths: pr, states: sr });
+        } else {
+            b = b.visitor(vis);
+        }
     }
     if cfg.target_states > 0 {
         b = b.target_state_count(cfg.target_states);
@@ -773,7 +798,21 @@ pub fn run_one(g: &Graph, cfg: &Cfg) -> Value {
             "max_depth": 0, "discoveries": [], "disc_panicked": false, "assert_panicked": false,
             "handles_left": 0, "wall_ms": 0, "spawn_panicked": spawn_panicked, "evals": 0}),
     };
-    json!({"cfg": cfg, "visits": visits, "chooser": chooser, "chooser2": chooser2, "done": done, "market": market})
+    let mut out = json!({"cfg": cfg, "visits": visits, "chooser": chooser, "chooser2": chooser2, "done": done, "market": market});
+    if let Some((pa, sa)) = rec_access {
+        let mut paths: Vec<Value> = pa()
+            .into_iter()
+            .map(|p| {
+                let v = p.into_vec();
+                let states: Vec<u32> = v.iter().map(|(s, _)| *s).collect();
+                let acts: Vec<u16> = v.iter().filter_map(|(_, a)| *a).collect();
+                json!({"path": states, "acts": acts})
+            })
+            .collect();
+        paths.sort_by_key(|p| p.to_string());
+        out["recorded"] = json!({"states": sa(), "paths": paths});
+    }
+    out
 }
 
 static RID: AtomicU64 = AtomicU64::new(0);
